@@ -79,7 +79,7 @@ def handle (fam : String) (c impl : Json) : P Json := do
     let model := if v.isDate then dateCompare isStr isDt op isoOp v.data other else Vec.compare op v.data other
     -- requirement: a date vector against ISO strings (str vector / str scalar) compares with the parsed date
     let opSpec : Nat → Nat → Res Bool :=
-      if v.isDate && usesIso isStr other then isoOp else op
+      if v.isDate && usesIso (fun s => isStr s || isDt s) other then isoOp else op
     let spec := specCompare opSpec v.data other
     if cellsHave .key spec || resHas .key model then .error "oracle table incomplete"
     let cf := conforms spec obs.data
